@@ -1,10 +1,10 @@
-SPECIFICATION Spec
-CONSTRAINT Bound
+SPECIFICATION WildSpec
+CONSTRAINT WildDeepBound
 VIEW View
 INVARIANT Forest
 INVARIANT RunConsistent
 INVARIANT NoDouble
 INVARIANT NameIndex
 INVARIANT Watchers
-
+PROPERTY WildStepInv
 CHECK_DEADLOCK FALSE
